@@ -10,7 +10,7 @@ from .. import env  # noqa: F401
 from .. import gen, build, mcase, refgeo as rg
 
 ID = "C15"
-CASES = {"quick": 1500, "thorough": 100000}
+CASES = {"quick": 5000, "thorough": 100000}
 MIN_CASES_PER_SHARD = 30
 CASE_TIMEOUT = 40
 SCALE = 30.0
@@ -157,6 +157,6 @@ def replay_case(ctx, wit):
 
 
 TECHNIQUE = "runtime monitoring: differential monitor over sibling executions (planar metres vs the same case placed on the sphere by a reference azimuthal-equidistant mapping)"
-LEVEL_TEXT = ("1.5k (quick) / 100k (thorough) street-scale cases matched in both metrics; the matched index must be equal and the best log-probability "
+LEVEL_TEXT = ("{Q} (quick) / {T} (thorough) street-scale cases matched in both metrics; the matched index must be equal and the best log-probability "
               "must agree within 1e-2*max(1,|x|). Held-on-observed.")
 LEVEL_NOTE = "Trusted: the reference placement (distortion ~6e-9 at 500 m). Emitting-only, no cut-offs, as the property states."
